@@ -3,7 +3,7 @@
 /repo itself); each must be caught by the quick check of the property named.  The scratch copy
 lives under /tmp and is removed afterwards; checks are pointed at it with VERIF_REPO_SRC.
 
-usage: sensitivity.py [patch-id ...]     (default: all)   -> selftest/sensitivity_results.json
+usage: sensitivity.py [-jN] [patch-id ...]     (default: all)   -> selftest/sensitivity_results.json
 """
 import json
 import os
@@ -201,53 +201,56 @@ patch("c20-positive-exit-code-is-success", ["C20"], "saml2_tophat/sigver.py",
 # cannot be parsed, the response is rejected)
 
 
-def run(selected):
-    results = []
-    for p in P:
-        if selected and p["id"] not in selected:
-            continue
-        tmp = tempfile.mkdtemp(prefix="verif-mut-")
-        try:
-            dst = os.path.join(tmp, "src")
-            shutil.copytree(SRC, dst, ignore=shutil.ignore_patterns("__pycache__", "*.pyc", "*.egg-info"))
-            f = os.path.join(dst, p["file"])
-            s = open(f).read()
-            pairs = p["old"] if isinstance(p["old"], list) else [(p["old"], p["new"])]
-            bad = [o for o, _ in pairs if s.count(o) != 1]
-            if bad:
-                results.append({"id": p["id"], "error": "patch does not apply (%r)" % bad[0][:60]})
-                print("%-55s PATCH-DOES-NOT-APPLY" % p["id"])
-                continue
-            for o, n in pairs:
-                s = s.replace(o, n)
-            open(f, "w").write(s)
-            row = {"id": p["id"], "note": p["note"], "caught_by": [], "missed_by": [], "rules": {}}
-            for prop in p["props"]:
-                t0 = time.time()
-                env = dict(os.environ, VERIF_OUT=tmp, VERIF_REPO_SRC=dst, VERIF_NO_DET="1", PYTHONHASHSEED="0", PYTHONWARNINGS="ignore")
-                pr = subprocess.run([os.path.join(VERIF, "bin", "check"), prop, "--tier", "quick"],
-                                    capture_output=True, text=True, env=env, timeout=900)
-                viol = [l for l in pr.stdout.splitlines() if l.startswith("VIOLATION")]
-                rules = [l.strip().split(" ")[0] for l in pr.stdout.splitlines() if l.strip().startswith("rule=")]
-                if pr.returncode == 1 and viol:
-                    row["caught_by"].append(prop)
-                else:
-                    row["missed_by"].append(prop)
-                    row.setdefault("tail", {})[prop] = pr.stdout[-400:] + pr.stderr[-400:]
-                row["rules"][prop] = rules[:4]
-                row.setdefault("wall", {})[prop] = round(time.time() - t0, 1)
-            results.append(row)
-            print("%-55s caught=%s missed=%s %s" % (p["id"], row["caught_by"], row["missed_by"], row["rules"]))
-            sys.stdout.flush()
-        finally:
-            shutil.rmtree(tmp, ignore_errors=True)
-            # replay files written for the mutant are not evidence about the real tree
-    return results
+def one(p):
+    """Apply one patch to a scratch copy and run the quick checks of the properties it names."""
+    tmp = tempfile.mkdtemp(prefix="verif-mut-")
+    try:
+        dst = os.path.join(tmp, "src")
+        shutil.copytree(SRC, dst, ignore=shutil.ignore_patterns("__pycache__", "*.pyc", "*.egg-info"))
+        f = os.path.join(dst, p["file"])
+        s = open(f).read()
+        pairs = p["old"] if isinstance(p["old"], list) else [(p["old"], p["new"])]
+        bad = [o for o, _ in pairs if s.count(o) != 1]
+        if bad:
+            print("%-55s PATCH-DOES-NOT-APPLY" % p["id"])
+            return {"id": p["id"], "error": "patch does not apply (%r)" % bad[0][:60]}
+        for o, n in pairs:
+            s = s.replace(o, n)
+        open(f, "w").write(s)
+        row = {"id": p["id"], "note": p["note"], "caught_by": [], "missed_by": [], "rules": {}}
+        for prop in p["props"]:
+            t0 = time.time()
+            env = dict(os.environ, VERIF_OUT=tmp, VERIF_REPO_SRC=dst, VERIF_NO_DET="1", PYTHONHASHSEED="0", PYTHONWARNINGS="ignore")
+            pr = subprocess.run([os.path.join(VERIF, "bin", "check"), prop, "--tier", "quick"],
+                                capture_output=True, text=True, env=env, timeout=1800)
+            viol = [l for l in pr.stdout.splitlines() if l.startswith("VIOLATION")]
+            rules = [l.strip().split(" ")[0] for l in pr.stdout.splitlines() if l.strip().startswith("rule=")]
+            if pr.returncode == 1 and viol:
+                row["caught_by"].append(prop)
+            else:
+                row["missed_by"].append(prop)
+                row.setdefault("tail", {})[prop] = pr.stdout[-400:] + pr.stderr[-400:]
+            row["rules"][prop] = rules[:4]
+            row.setdefault("wall", {})[prop] = round(time.time() - t0, 1)
+        print("%-55s caught=%s missed=%s %s" % (p["id"], row["caught_by"], row["missed_by"], row["rules"]))
+        sys.stdout.flush()
+        return row
+    finally:
+        # replay files written for the mutant are not evidence about the real tree
+        shutil.rmtree(tmp, ignore_errors=True)
+
+
+def run(selected, par=1):
+    import concurrent.futures as cf
+    todo = [p for p in P if not selected or p["id"] in selected]
+    with cf.ThreadPoolExecutor(max_workers=par) as ex:
+        return list(ex.map(one, todo))
 
 
 if __name__ == "__main__":
-    sel = set(sys.argv[1:])
-    res = run(sel)
+    par = max([int(a[2:]) for a in sys.argv[1:] if a.startswith("-j")] or [1])
+    sel = set(a for a in sys.argv[1:] if not a.startswith("-j"))
+    res = run(sel, par)
     out = os.path.join(VERIF, "selftest", "sensitivity_results.json")
     if not sel:
         json.dump({"results": res, "caught": sum(1 for r in res if r.get("caught_by") and not r.get("missed_by")),
